@@ -40,6 +40,7 @@ SIG_ALIAS = "C15/distribute_atoms/link-on-whole-system-fragment-extends-shared-g
 SIG_DMET_INCOMPLETE = "C15/DMET.__init__/nested-fragment_atoms-not-covering-molecule-accepted"
 SIG_DMET_NEGDUP = "C15/DMET.__init__/negative-atom-index-duplicates-atom"
 SIG_NEWTON = "C15/DMET.simulate/newton-fails-on-constant-electron-count"
+SIG_DMET_WRONG_ATOMS = "C15/DMET.__init__/nested-fragment_atoms-fragment-holds-wrong-atoms"
 
 SOLVERS = ["HF", "CCSD", "FCI", "MINDO3"]
 BASES = ["sto-3g", "6-31g"]
@@ -86,6 +87,17 @@ def stub_energy(sym, lv, geom):
     if sym:
         return (lv + 2) * sum((atom_hash(a) ** 2 for a in geom), Fraction(0)) + 1000 * lv
     return sum((((i + 1) * (lv + 2)) * atom_hash(a) ** 2 for i, a in enumerate(geom)), Fraction(0)) + 1000 * lv
+
+
+def model_eval(ck, name, exprs, shard=300):
+    """ck.coq_eval, but a failure (theory no longer builds, evaluation error) is recorded as a violation without input
+    and None is returned, so that the implementation-only oracles of the remaining streams still run."""
+    try:
+        return ck.coq_eval(name, PREAMBLE, exprs, shard=shard)
+    except Exception as e:       # noqa
+        ck.violation("C15/model-evaluation/%s" % name, "the Coq model could not be evaluated for stream %s: %s" % (name, str(e)[-600:]),
+                     {"kind": "model-eval", "stream": name, "error": str(e)[-3000:]}, found_input=False)
+        return None
 
 
 # ------------------------------------------------------------------------------------------ ONIOM with stubs
@@ -347,7 +359,7 @@ def stream_oniom(ck):
                 sample={"case": c, "impl": out[:300]}, tags=tags)
         for sig, desc in oniom_oracle(c, out, info):
             ck.violation(sig, desc, {"kind": "oniom", "case": c})
-    model = ck.coq_eval("oniom", PREAMBLE, exprs, shard=150)
+    model = model_eval(ck, "oniom", exprs, shard=150) or []
     for c, (a, _), b in zip(cases, impl, model):
         if a != b:
             ck.violation("C15/correspondence/oniom/%s" % ("error" if a.startswith("Err") or b.startswith("Err") else "value"),
@@ -403,7 +415,7 @@ def stream_relink(ck):
         if relink_oracle(c, caps):
             ck.violation("C15/Link.relink/cap-not-on-bond", "cap %s is not staying + %s*(leaving - staying)" % (caps, f),
                          {"kind": "relink", "case": c})
-    model = ck.coq_eval("relink", PREAMBLE, exprs)
+    model = model_eval(ck, "relink", exprs) or []
     for c, a, b in zip(cases, impl, model):
         if a != b:
             ck.violation("C15/correspondence/relink", "model and implementation differ: impl=%s model=%s" % (a, b),
@@ -575,7 +587,7 @@ def stream_mi(ck):
         cases.append(c)
         impl.append(out)
         exprs.append(mi_coq_expr(fi, emf, c["user"]))
-    model = ck.coq_eval("mi", PREAMBLE, exprs, shard=100)
+    model = model_eval(ck, "mi", exprs, shard=100) or []
     for c, a, b in zip(cases, impl, model):
         if a != b:
             ck.violation("C15/correspondence/mi_summation", "model and implementation differ: impl=%s model=%s" % (a, b),
@@ -589,7 +601,8 @@ _MOLS = {}
 def h_chain(n):
     if n not in _MOLS:
         from tangelo import SecondQuantizedMolecule
-        geom = [("H", (0.0, 0.0, 1.1 * i + 0.07 * i * i)) for i in range(n)]
+        # zig-zag chain without symmetry: distinct x, y, z for every atom, distinct bond lengths
+        geom = [("H", (0.31 * (-1) ** i * (1 + 0.13 * i), 0.045 * i * i, 1.05 * i + 0.07 * i * i)) for i in range(n)]
         _MOLS[n] = (SecondQuantizedMolecule(geom, 0, 0, basis="sto-3g"), geom)
     return _MOLS[n]
 
@@ -610,13 +623,14 @@ def run_dmet_impl(case):
             d = DMETProblemDecomposition(opt)
     except Exception as e:       # noqa
         return err_str(e), None
-    zs = [a[1][2] for a in mol_to_bohr(geom)]
+    ref = mol_to_bohr(geom)
+    rebuilt = [(str(a[0]), tuple(float(x) for x in a[1])) for a in d.molecule._atom]
     order = []
-    for a in d.molecule._atom:
-        order.append(int(np.argmin([abs(a[1][2] - z) for z in zs])))
+    for a in rebuilt:
+        order.append(int(np.argmin([sum((a[1][k] - r[1][k]) ** 2 for k in range(3)) for r in ref])))
     out = "Ok order=[%s] counts=[%s] ns=%d no=%d nf=%d" % (",".join(map(str, order)), ",".join(map(str, d.fragment_atoms)),
                                                            len(d.fragment_solvers), len(d.solvers_options), len(d.fragment_frozen_orbitals))
-    return out, (order, list(d.fragment_atoms))
+    return out, (order, list(d.fragment_atoms), rebuilt)
 
 
 def mol_to_bohr(geom):
@@ -694,6 +708,34 @@ def gen_dmet(rng, nested):
     return {"natm": natm, "fa": fa, "solvers": solvers, "options": options, "frozen": frozen, "kind": kind}
 
 
+def perm_tags(c):
+    """cycle structure of a nested fragment_atoms that is a permutation (a reordering by the inverse permutation
+    is invisible on involutions; cycles of length >= 3 expose it)"""
+    fa = c["fa"]
+    if not (isinstance(fa, list) and fa and all(isinstance(x, list) for x in fa)):
+        return []
+    flat = [i % c["natm"] for f in fa for i in f if isinstance(i, int)]
+    if sorted(flat) != list(range(c["natm"])):
+        return []
+    longest, seen = 1, set()
+    for st in range(len(flat)):
+        n, j = 0, st
+        while j not in seen:
+            seen.add(j)
+            j = flat[j]
+            n += 1
+        longest = max(longest, n)
+    return ["perm:longest-cycle=%d" % longest]
+
+
+def dmet_cycle_cases():
+    base = {"solvers": "fci", "options": None, "frozen": 0, "kind": "permutation-with-long-cycle"}
+    fas = [(6, [[2, 0], [1, 3], [4, 5]]), (6, [[1, 2], [3, 4], [5, 0]]), (6, [[2, 0, 1], [4, 5, 3]]), (6, [[1, 2, 3, 4, 5, 0]]),
+           (6, [[3], [0, 5], [1, 4, 2]]), (6, [[-4, 0], [1, -3], [4, 5]]), (4, [[1, 2], [3, 0]]), (4, [[2], [0], [1], [3]]),
+           (4, [[1, 3, 0], [2]]), (4, [[-3, -2], [-1, 0]])]
+    return [dict(base, natm=n, fa=fa) for n, fa in fas]
+
+
 DMET_WITNESS = {"natm": 6, "fa": [[0, 1], [2, 3]], "solvers": "fci", "options": None, "frozen": 0, "kind": "witness-incomplete"}
 
 
@@ -704,7 +746,24 @@ def dmet_oracle(case, out, obs):
     finds = []
     flat = [i for f in fa for i in f] if nested else None
     if obs is not None:
-        order, counts = obs
+        order, counts, rebuilt = obs
+        # implementation-only: the k-th fragment of the rebuilt molecule must consist of exactly the atoms the user
+        # requested for it (element and coordinates of geometry[id], id by id), fragment by fragment
+        if nested and all(isinstance(i, int) and -natm <= i < natm for i in flat) and all(isinstance(n, int) and n >= 0 for n in counts):
+            ref = mol_to_bohr(h_chain(natm)[1])
+            pos = 0
+            for k, (ids, n) in enumerate(zip(fa, counts)):
+                got = rebuilt[pos:pos + n]
+                want = [ref[i] for i in ids]
+                pos += n
+                same = len(got) == len(want) and all(g[0] == w[0] and max(abs(g[1][j] - w[1][j]) for j in range(3)) < 1e-8
+                                                     for g, w in zip(got, want))
+                if not same:
+                    finds.append((SIG_DMET_WRONG_ATOMS,
+                                  "fragment_atoms=%s on %d atoms: fragment %d was requested as atoms %s but the rebuilt molecule "
+                                  "holds atoms %s there (whole new order %s)" % (fa, natm, k, [i % natm for i in ids],
+                                                                                 order[pos - n:pos], order)))
+                    break
         if sorted(order) != list(range(natm)) or sum(counts) != natm:
             dup = len(set(order)) != len(order)
             finds.append((SIG_DMET_NEGDUP if dup else SIG_DMET_INCOMPLETE,
@@ -729,10 +788,12 @@ def stream_dmet(ck):
     asis = obs_w is not None or out_w.startswith("Err:external")
     ck.notes["dmet_variant"] = "asis (witness of C15_dmet_reorder_asis_refuted is still accepted by /repo)" if asis \
         else "repaired (witness rejected by /repo: correspondence against dmet_book_repaired)"
-    cases = [DMET_WITNESS] + [gen_dmet(ck.rng, True) for _ in range(30 if quick else 300)] \
+    cases = [DMET_WITNESS] + dmet_cycle_cases() + [gen_dmet(ck.rng, True) for _ in range(30 if quick else 300)] \
         + [gen_dmet(ck.rng, False) for _ in range(60 if quick else 600)]
     ck.stream("dmet-bookkeeping", "DMETProblemDecomposition.__init__ on H4/H6 (sto-3g): fragment_atoms as counts or nested index "
-              "lists (permutations, negative, repeated, too high, incomplete, empty), solver / options / frozen list lengths; "
+              "lists (permutations incl. fixed ones with 3-, 4- and 6-cycles, negative, repeated, too high, incomplete, empty) on a zig-zag chain "
+              "with distinct coordinates per atom; implementation-only oracle: fragment k of the rebuilt molecule holds exactly geometry[id] "
+              "for the requested ids; solver / options / frozen list lengths; "
               "non-trivial = nested list that re-orders the atoms, or >= 2 fragments, accepted")
     impl, exprs = [], []
     for c in cases:
@@ -741,10 +802,10 @@ def stream_dmet(ck):
         exprs.append(dmet_coq_expr(c, asis))
         ck.case("dmet-bookkeeping", json.dumps(c, sort_keys=True),
                 nontrivial=obs is not None and (len(c["fa"]) >= 2 or obs[0] != sorted(obs[0])),
-                sample={"case": c, "impl": out}, tags=[c["kind"], out.split(" ")[0] if out.startswith("Err") else "Ok"])
+                sample={"case": c, "impl": out}, tags=[c["kind"], out.split(" ")[0] if out.startswith("Err") else "Ok"] + perm_tags(c))
         for sig, desc in dmet_oracle(c, out, obs):
             ck.violation(sig, desc, {"kind": "dmet", "case": c})
-    model = ck.coq_eval("dmet", PREAMBLE, exprs)
+    model = model_eval(ck, "dmet", exprs) or []
     for c, a, b in zip(cases, impl, model):
         if a == b:
             continue
@@ -826,6 +887,65 @@ def support_dmet(ck):
             ck.violation("C15/DMET.simulate/electron-sum", "fragment_atoms=%s (%s): |sum n_frag - N| = %.3e" % (c["fa"], c["loc"], r["nerr"]), rep)
 
 
+def zigzag(n, scale=1.0):
+    return [["H", [0.31 * (-1) ** i * (1 + 0.13 * i) * scale, 0.045 * i * i, (1.05 * i + 0.07 * i * i) * scale]] for i in range(n)]
+
+
+def run_support_dmet_relabel(case):
+    """DMET with nested ids vs DMET on the molecule relabelled by hand with plain counts.  Returns dict."""
+    from tangelo import SecondQuantizedMolecule
+    from tangelo.problem_decomposition.dmet.dmet_problem_decomposition import DMETProblemDecomposition, Localization
+    geom = [(a[0], tuple(a[1])) for a in case["geom"]]
+    flat = [i for f in case["fa"] for i in f]
+    loc = getattr(Localization, case["loc"])
+
+    def one(g, fa):
+        mol = SecondQuantizedMolecule(g, 0, 0, basis="sto-3g")
+        with contextlib.redirect_stdout(io.StringIO()), contextlib.redirect_stderr(io.StringIO()):
+            d = DMETProblemDecomposition({"molecule": mol, "fragment_atoms": copy.deepcopy(fa), "fragment_solvers": "fci",
+                                          "electron_localization": loc})
+        d.build()
+        try:
+            return {"e": float(d.simulate()), "mu": float(d.chemical_potential)}
+        except RuntimeError as ex:
+            return {"error": str(ex)[:200], "cost0": float(abs(d._oneshot_loop(0.0))), "cost1": float(abs(d._oneshot_loop(0.1)))}
+    return {"nested": one(geom, case["fa"]), "hand": one([geom[i] for i in flat], [len(f) for f in case["fa"]])}
+
+
+def support_dmet_relabel(ck):
+    if ck.tier == "quick":
+        return
+    ck.stream("support-dmet-relabel", "SUPPORT (numerical, not proof): H6 / H4 zig-zag chains without symmetry, nested fragment_atoms whose "
+              "flattened ids contain cycles of length >= 3: E_DMET(nested ids) = E_DMET(molecule relabelled by hand, fragment_atoms as "
+              "counts) within 1e-6 (the two runs build the same PySCF molecule)")
+    cases = [{"geom": zigzag(n), "fa": fa, "loc": loc}
+             for n, fa in ((6, [[2, 0], [1, 3], [4, 5]]), (6, [[1, 2], [3, 4], [5, 0]]), (6, [[2, 0, 1], [4, 5, 3]]),
+                           (6, [[3, 4], [0, 5], [1, 2]]), (4, [[1, 2], [3, 0]]), (4, [[1], [2], [3, 0]]))
+             for loc in ("meta_lowdin",)]
+    cases.append({"geom": zigzag(6), "fa": [[2, 0], [1, 3], [4, 5]], "loc": "nao"})
+    for _ in range(4):
+        p = list(range(6))
+        ck.rng.shuffle(p)
+        cases.append({"geom": zigzag(6, ck.rng.uniform(0.9, 1.2)), "fa": [p[:2], p[2:4], p[4:]], "loc": "meta_lowdin"})
+    for c in cases:
+        r = run_support_dmet_relabel(c)
+        ok = "e" in r["nested"] and "e" in r["hand"]
+        ck.case("support-dmet-relabel", json.dumps(c), nontrivial=ok, sample={"case": c, "result": r},
+                tags=[c["loc"], "natm=%d" % len(c["geom"]), "ok" if ok else "raised"] + perm_tags({"fa": c["fa"], "natm": len(c["geom"])}))
+        rep = {"kind": "support-dmet-relabel", "case": c, "result": r}
+        if not ok:
+            if ("error" in r["nested"]) != ("error" in r["hand"]):
+                ck.violation("C15/DMET.simulate/nested-ids-vs-hand-relabelled-one-raises", "fragment_atoms=%s: %s" % (c["fa"], r), rep)
+            else:
+                bad = [x for x in (r["nested"], r["hand"]) if not (x["cost0"] < 1e-9 and x["cost1"] < 1e-9)]
+                ck.violation("C15/DMET.simulate/optimizer-fails" if bad else SIG_NEWTON, "fragment_atoms=%s: %s" % (c["fa"], r), rep)
+            continue
+        if abs(r["nested"]["e"] - r["hand"]["e"]) > 1e-6:
+            ck.violation("C15/DMET.simulate/nested-ids-energy-differs-from-hand-relabelled-molecule",
+                         "fragment_atoms=%s (%s): E(nested ids) = %.10f, E(hand-relabelled molecule, counts %s) = %.10f"
+                         % (c["fa"], c["loc"], r["nested"]["e"], [len(f) for f in c["fa"]], r["hand"]["e"]), rep)
+
+
 def run_support_oniom(case):
     from tangelo import SecondQuantizedMolecule
     from tangelo.algorithms import CCSDSolver, FCISolver
@@ -894,12 +1014,16 @@ def run(ck):
         return
     import warnings
     warnings.filterwarnings("ignore")
-    stream_oniom(ck)
-    stream_relink(ck)
-    stream_mi(ck)
-    stream_dmet(ck)
-    support_dmet(ck)
-    support_oniom(ck)
+    # every stream runs whatever happened before (broken proof step, broken model, crash of another stream): the
+    # implementation-only oracles keep searching for a concrete failing input
+    for stream in (stream_oniom, stream_relink, stream_mi, stream_dmet, support_dmet, support_dmet_relabel, support_oniom):
+        try:
+            stream(ck)
+        except Exception:        # noqa
+            import traceback
+            tb = traceback.format_exc()
+            ck.violation("C15/harness-crash/%s" % stream.__name__, "stream %s could not complete: %s" % (stream.__name__, tb.splitlines()[-1]),
+                         {"kind": "crash", "stream": stream.__name__, "traceback": tb}, found_input=False)
     ck.notes["theorem_status"] = {
         "full": ["C15_oniom_telescopes_sum", "C15_oniom_telescopes", "C15_oniom_model_is_system", "C15_oniom_model_is_system_index_list",
                  "C15_distribute_atoms_repaired_unchanged", "C15_link_on_bond", "C15_link_collinear_scaled",
@@ -961,6 +1085,12 @@ def replay(data):
         res = run_support_dmet(r["case"])
         print(res)
         return 1 if ("error" in res or (res["full_span"] and abs(res["e"] - res["efci"]) > 1e-7) or res["nerr"] > 1e-6) else 0
+    if kind == "support-dmet-relabel":
+        res = run_support_dmet_relabel(r["case"])
+        print(res)
+        if "e" in res["nested"] and "e" in res["hand"]:
+            return 1 if abs(res["nested"]["e"] - res["hand"]["e"]) > 1e-6 else 0
+        return 1
     if kind == "support-oniom":
         e, ref = run_support_oniom(r["case"])
         print(e, ref)
